@@ -20,6 +20,8 @@ class Traj:
         self.cell = z3.Function("cell", z3.IntSort(), z3.IntSort())
         self.nan = z3.Function("isnan", z3.IntSort(), z3.BoolSort())
         self.n_cells = n_cells
+        V.inputs["cell"] = ("vec", self.L, self.cell, "int")
+        V.inputs["isnan"] = ("vec", self.L, self.nan, "bool")
         cell, nan = self.cell, self.nan
         self.vec = Vec(self.L, lambda k: NanNum(z3.ToReal(cell(zint(k))), nan(zint(k))), kind="ndarray", elem="real")
         if n_cells is not None:
@@ -209,6 +211,16 @@ class OneTau(Contract):
         V.env.update(n=n, tr=tr, tau=tau, obj=obj, cnt=self_cnt)
         # tau is passed as a float with integer value in the package (int(tau) is applied): model an int here
         return [obj, Num(tau, True), lift(variant == "noncorrelated")], {}
+
+    def to_case(self, vals, variant):
+        n, tau, cell, nan = vals.get("n_cells"), vals.get("tau"), vals.get("cell"), vals.get("isnan")
+        if None in (n, tau, cell, nan) or not (1 <= n <= 30):
+            return None
+        traj = [None if nan[k] else (int(cell[k]) if cell[k] is not None and 0 <= cell[k] < n else 0) for k in range(len(cell))]
+        raw = {"traj": traj, "n_cells": int(n), "tau": int(tau), "noncorr": variant == "noncorrelated"}
+        # a second, regularised case: same length and lag, cells cycling through the grid (keeps the discrete structure)
+        tame = dict(raw, traj=[None if nan[k] else (k * 7 + 1) % int(n) for k in range(len(cell))] + [0, 1 % int(n), 0, (2 % int(n))])
+        return [raw, tame]
 
     def _inv(self, interp, frame, m):
         ctx = interp.ctx
